@@ -95,6 +95,9 @@ func VH_purePool(a []string) {
 // VH_pureBytes [L]: arbitrary bytes.
 func VH_pureBytes(a []string) {
 	buf := vBytes(vAtoi(a[0]), "buf")
+	for i := 0; i < len(buf); i++ {
+		vAssume(buf[i] < 0x80) // purity, not byte-level parsing, is the subject: ASCII keeps string helpers of a changed library encodable
+	}
 	vNote("text", vShow(buf))
 	vCheckPure(buf, []string{buf, "MIT"})
 }
